@@ -239,6 +239,78 @@ def gen_ipc_case(rng):
     return "0 0 - 1 ; %s ; %s ; %s ; settle%d" % (" ".join(ops + tail), " | ".join(behs), " ".join(script), len(tail))
 
 
+MAX_RW = 0x7ffff000
+
+
+def gen_huge_case(rng):
+    """requests whose buffers sum to 2^32 bytes and more; the wrappers never hand them to the kernel
+    (reserved address space only), the answers are just numbers"""
+    H = [2**31 - 1, 2**31, 2**32 - 1, 2**32, 2**30, 3 * 2**30, 2**26, 2**32 + 1, 1, 0, 5]
+    ops, behs, script, totals = [], [], [], []
+
+    def huge():
+        r = rng.random()
+        if r < 0.15:
+            b = [2**26] * 64                      # 64 x 64 MiB = 2^32
+        elif r < 0.25:
+            b = [2**30] * rng.choice([4, 5, 8, 9])
+        else:
+            b = [rng.choice(H) for _ in range(rng.choice([1, 2, 2, 3, 4, 6]))]
+            if sum(b) < 2**24:
+                b.append(rng.choice([2**32 - 1, 2**32, 2**31]))
+        totals.append(b)
+        return lens_str(b)
+    stuck = rng.random() < 0.8
+    if rng.random() < 0.5:
+        ops.append("W" + lens_str(gen_bufs(rng, False)))
+    else:
+        ops.append("W" + huge())
+    script.append(rng.choice(["e11", "e105", "n1"]) if stuck else rng.choice(["n%d" % 2**30, "p", "n%d" % 2**32]))
+    for _ in range(rng.randint(1, 7)):
+        r = rng.random()
+        if r < 0.55:
+            ops.append("W" + huge())
+        elif r < 0.70:
+            ops.append("T" + huge())
+        elif r < 0.78:
+            ops.append("W" + lens_str(gen_bufs(rng, False)))
+        elif r < 0.83:
+            ops.append("S")
+        else:
+            ops.append("R")
+    bounds = [1, 2**30, MAX_RW, MAX_RW - 1, 2**31, 2**32, 2**31 - 1, 5, 0]
+    for b in totals:
+        acc = 0
+        for x in b[:8]:
+            acc += x
+            bounds += [acc % MAX_RW, x % MAX_RW]
+    for _ in range(rng.choice([0, 2, 5, 12])):
+        r = rng.random()
+        script.append("n%d" % rng.choice(bounds) if r < 0.6 else rng.choice(["e11", "e4", "e105", "p", "p", "e32"]))
+    for _ in range(rng.choice([0, 0, 1, 3])):
+        behs.append(rng.choice(["", "W" + huge(), "T" + huge(), "S", "C"]))
+    need = sum((sum(b) + MAX_RW - 1) // MAX_RW + len(b) for b in totals)
+    if rng.random() < 0.55:
+        tail = ["R"] * rng.choice([0, 1, 3]) + ["C", "R"]
+    else:
+        tail = ["R"] * (need + len(script) + 10)
+        if rng.random() < 0.3:
+            tail += ["C", "R"]
+    return "0 0 ; %s ; %s ; %s ; settle%d" % (" ".join(ops + tail), " | ".join(behs), " ".join(script), len(tail))
+
+
+FIXED_HUGE = [
+    # 64 x 64 MiB and 5 x 1 GiB queued behind a refused write; queue size read; close cancels everything
+    "0 0 ; W5 W67108864*64 W1073741824*5 R C R ; ; e11 e11 ; settle2",
+    # single buffers around 2^31 and 2^32, partial acceptances of huge counts, then drained
+    "0 0 ; W4294967295 W2147483648,2147483647,1 R R R R R R R R R R R R ; ; e11 n2147479552 n1 n1073741824 ; settle12",
+    "0 0 ; W4294967296,4294967297 R R R R R R R R R R ; ; n5 p ; settle10",
+    # uv_try_write with more than INT_MAX bytes: what the OS takes in one call fits an int
+    "0 0 ; T4294967296 T2147483648,5 R ; ; p n2147483648 ; settle1",
+    "0 0 ; W3 T4294967296 R R ; ; e11 ; settle2",
+]
+
+
 FIXED_IPC = [
     # the payload goes out in three rounds: the descriptor must go with the first accepted sendmsg only
     # (the seeded change cleared req->send_handle only when the whole request was written)
@@ -618,6 +690,10 @@ def main():
     run_mode(chk, "stream.c write path = Model/StreamWrite.v (writes queued while uv_tcp_connect/uv_pipe_connect is pending)",
              [hs, "unix"], model, ccases)
 
+    hcases = FIXED_HUGE + [gen_huge_case(chk.rng) for _ in range(4000 if thorough else 600)]
+    run_mode(chk, "stream.c write path = Model/StreamWrite.v (requests of 2^32 bytes and more, answers are numbers only)",
+             [hs, "unix"], model, hcases)
+
     icases = FIXED_IPC + [gen_ipc_case(chk.rng) for _ in range(12000 if thorough else 2000)]
     run_mode(chk, "stream.c write path = Model/StreamWrite.v (uv_write2 with a handle on an IPC pipe)",
              [hs, "unix"], model, icases)
@@ -635,7 +711,9 @@ def main():
              "connect(2)/getsockopt(SO_ERROR) answers logged and EINPROGRESS answers forced; fourth pass: uv_write2 "
              "with a bound uv_tcp_t as send_handle on a pipe opened with ipc=1, payloads split by scripted short "
              "writes; the wrapped sendmsg keeps and records the SCM_RIGHTS control message per call, the peer "
-             "counts the descriptors it receives with recvmsg per request",
+             "counts the descriptors it receives with recvmsg per request; fifth pass: buffers of 2^31-1 ... 2^32+1 "
+             "bytes (sums crossing 2^32 and 2^33) on reserved PROT_NONE address space, never handed to the kernel: the "
+             "wrapper answers with the scripted number capped at MAX_RW_COUNT; all sizes in unbounded integers",
         trusted=["Coq 8.16.1 kernel (coqc)", "ExtrOcamlBasic extraction + OCaml 4.13.1 + zarith glue (ocaml/zutil.ml, drv_c05.ml)",
                  "harness/c05_stream.c (syscall wrappers, address->request mapping, peer drain), checks/c05.py (generator, monitor)",
                  "gcc 12, Linux AF_UNIX/TCP sockets"])
